@@ -324,7 +324,7 @@ func c16History(c *vc.Ctx, idx int) {
 					regHash, regHeight = v.VoteKey, v.Height
 				}
 			}
-			variant := []string{"valid", "valid", "valid", "other-chain", "other-epoch", "other-height", "other-proposer", "tx-proof-by-other-key", "bls-proof-by-other-key", "other-bls-key", "swapped-proofs"}[r.Intn(11)]
+			variant := []string{"valid", "valid", "valid", "other-chain", "other-epoch", "other-height", "other-proposer", "tx-proof-by-other-key", "bls-proof-by-other-key", "other-bls-key", "other-bls-key-with-its-own-hash", "swapped-proofs"}[r.Intn(12)]
 			chainID, prop, epoch, height := w.Cfg.ChainID, g.Proposer.AddrStr, g.Epoch, cd.regHeight
 			signer := cd.m
 			switch variant {
@@ -358,6 +358,13 @@ func c16History(c *vc.Ctx, idx int) {
 				o := world.NewMember(c.Seed, "imp2", ci)
 				blsKey = o.BLSPub
 				_, blsp = voterProofs(&world.Member{Tx: cd.m.Tx, BLS: o.BLS, Addr: cd.m.Addr}, chainID, prop, epoch, height, hashForDoc)
+			case "other-bls-key-with-its-own-hash":
+				// another vote key, and both proofs made - consistently - over the hash of that other key instead of the hash the
+				// execution layer registered
+				o := world.NewMember(c.Seed, "imp3", ci)
+				blsKey = o.BLSPub
+				oh := sha256.Sum256(o.BLSPub)
+				txp, blsp = voterProofs(&world.Member{Tx: cd.m.Tx, BLS: o.BLS, Addr: cd.m.Addr}, chainID, prop, epoch, height, oh[:])
 			case "swapped-proofs":
 				txp, blsp = append([]byte(nil), blsp...), append([]byte(nil), txp...)
 				for len(txp) < 64 {
@@ -633,7 +640,7 @@ func edgeClass(d, period, timeout time.Duration) string {
 func init() {
 	vc.Register(&vc.Check{
 		ID: "C16", Title: "Relayer group stays well-formed; members join by proof, elections are timely", Level: "exploration",
-		Rule: "one case = one history (60/160 blocks, genesis groups of 1..4, electing period 15 s, acceptance timeout 6 s, 0 or 40 s) with execution-layer add requests (fresh candidates, some registered under a wrong key hash, re-adds) and remove requests (everybody, the proposer, one voter once or twice, pending/boarding candidates, unknown addresses), MsgNewVoter in 9 proof variants (valid; bound to another chain, epoch, registration height or proposer; ECDSA or BLS proof by another key; another BLS key; swapped proofs) on candidates in every status, proposer acceptances (right and wrong epoch), quorum votes incl. one that counts a voter who boards only at the next election, and block times placed at period-1ns, period, timeout-1ns, timeout, timeout+1ns; " +
+		Rule: "one case = one history (60/160 blocks, genesis groups of 1..4, electing period 15 s, acceptance timeout 6 s, 0 or 40 s) with execution-layer add requests (fresh candidates, some registered under a wrong key hash, re-adds) and remove requests (everybody, the proposer, one voter once or twice, pending/boarding candidates, unknown addresses), MsgNewVoter in 10 proof variants (valid; bound to another chain, epoch, registration height or proposer; ECDSA or BLS proof by another key; another BLS key, with the registered hash or with its own hash in both proofs; swapped proofs) on candidates in every status, proposer acceptances (right and wrong epoch), quorum votes incl. one that counts a voter who boards only at the next election, and block times placed at period-1ns, period, timeout-1ns, timeout, timeout+1ns; " +
 			"after every commit: one proposer that is an activated/off-boarding member and not among the voters, members distinct with records, group never empty, Query/Relayer consistent; admission only with ground-truth-valid proofs; a boarding voter is not listed or counted before an election; a member that awaited removal before an election is gone after it; epoch += 1 exactly when elapsed >= period or (not accepted and timeout != 0 and elapsed >= timeout); FinalizeBlock never fails. Non-trivial = every block; distinct = (members, election due, time edge, adds, removes) and registration variants.",
 		Assume: []string{"'proposer accepted' at the end of a block = accepted before, or any relayer message of the proposer succeeded in the block"},
 		Cases:  func(tier string) int { return map[string]int{"quick": 48, "thorough": 200}[tier] },
